@@ -1,5 +1,5 @@
 (* Extraction of the C01 model (ExtrOcamlBasic only; Z/positive/nat stay inductive). *)
-From LV Require Import Enc.EncBase Enc.ZRLE Enc.Update Enc.Tight Enc.TightSplit Dec.SpecZRLE Dec.SpecTight Dec.SpecUpdate.
+From LV Require Import Enc.EncBase Enc.ZRLE Enc.Update Enc.Tight Enc.TightSplit Enc.RawSplit Dec.SpecZRLE Dec.SpecTight Dec.SpecUpdate.
 Require Import ExtrOcamlBasic.
 Extraction Language OCaml.
-Extraction "../build/ocaml/C01/model.ml" send_rect send_tight_session wire_bytes dec_rect zrle_cmode_gen zrle_bpp15 spec_cmode spec_tpixel3 dec_tight le_val le_bytes grid_bytes.
+Extraction "../build/ocaml/C01/model.ml" send_rect send_rect_split send_tight_session wire_bytes dec_rect zrle_cmode_gen zrle_bpp15 spec_cmode spec_tpixel3 dec_tight le_val le_bytes grid_bytes.
